@@ -21,6 +21,7 @@ RULE = (
     'states, labels, cut-off, resolution).'
 )
 RULE += ' Added in rounds 5-10: per-atom species variants of one symbol; recurring cut-offs with results scribbled on after use; label vocabularies whose natural and string order differ; skewed cells with cut-offs between half the perpendicular width and half the shortest edge; one system with 1.8e7 pair distances (additivity over frame ranges + brute force on single frames).'
+RULE += ' Round 14: the second species of the pair RDF also as a collection naming it repeatedly.'
 RULE += ' Round 12: for a third of the systems framework atoms are placed 1.5e-9..4.5e-9 A beyond a bin edge from a diffusing atom; the bin-edge ambiguity band is 1e-9 A.'
 ASSUMPTIONS = [
     'samples whose distance lies within 1e-9 A of a bin edge may fall in either neighbouring bin (counted in the evidence)',
@@ -197,9 +198,14 @@ def run_unit(unit, rng, ctx):
                 continue
             if rng.uniform() < 0.3:
                 _ = traj.displacements  # history: the source was last used in displacement representation
-            form = int(rng.integers(4))
+            form = int(rng.integers(6))
             a1 = s1 if form % 2 == 0 else [s1]
             a2 = s2 if form < 2 else (s2,)
+            if form >= 4:
+                # a collection naming a species more than once (a per-atom list [sp.symbol for sp in ... if ...]):
+                # the atoms selected - and the ideal-gas density - are those of the species, each once
+                a2 = [s2] * int(rng.integers(2, 4)) if form == 4 else [n_ for n_ in names if n_ == s2]
+                ctx.count('second_species_given_as_a_collection_with_repeated_names')
             if rng.integers(2):
                 out = traj.radial_distribution_between_species(specie_1=a1, specie_2=a2, max_dist=max_dist, resolution=res)
                 ctx.count('via_Trajectory.radial_distribution_between_species')
